@@ -176,6 +176,8 @@ class Exec:
         self.inject = None           # InjectCfg or None
         self.call_hooks = {}         # qualname -> hook(interp, fi, args, kwargs, node, self_cls), all paths
         self.notes_abstracted = set()
+        self.funcs_entered = set()        # repository functions whose bodies were symbolically executed as callees
+        self.funcs_by_contract = set()    # callees replaced by their contract at the call site
         self.stats = {'paths': 0, 'feas_checks': 0, 'feas_time': 0.0, 'infeasible': 0}
         self.cur_func = None
         self.site_ord = {}
@@ -198,12 +200,16 @@ class Exec:
         self.injected = 0
         self.old = None
         self.path_site_count = {}
+        self.setup_bools = None      # while a lemma's set-up runs: the Boolean unknowns it creates (each must stay free: vacuity guard)
 
     def fresh(self, name, sort):
         k = self.fresh_ctr.get(name, 0)
         self.fresh_ctr[name] = k + 1
         nm = f'{name}!{k}' if k else name
-        return z3.Const(nm, sort)
+        c = z3.Const(nm, sort)
+        if self.setup_bools is not None and sort == z3.BoolSort():
+            self.setup_bools.append(c)
+        return c
 
     def alloc(self, hobj):
         a = self.next_addr
